@@ -1,7 +1,5 @@
-"""setup_cmd: install icontract from the offline wheelhouse into ./.deps and run the oracle self-test."""
+"""setup_cmd: nothing has to be built or installed (stdlib + the repository's interpreter only);
+runs the oracle self-test so that a broken reference model is noticed before any check is believed."""
 import os, subprocess, sys
 HERE = os.path.dirname(os.path.abspath(__file__))
-sys.path.insert(0, HERE)
-from vlib import env
-env.ensure_deps()
 sys.exit(subprocess.call([sys.executable, os.path.join(HERE, "check"), "selftest"]))
